@@ -824,7 +824,11 @@ func ProbeForTest() string { return probeBattery() }
 
 // blockingSites counts the sites of kind "blocking" the instrumenter found in
 // the current tree.
-func blockingSites() int {
+func blockingSites() int { return sitesOfKind("blocking") }
+
+// sitesOfKind counts the sites of one kind that the instrumenter found in the
+// current tree.
+func sitesOfKind(kind string) int {
 	p := os.Getenv("VERIF_SITES")
 	if p == "" {
 		return 0
@@ -841,7 +845,7 @@ func blockingSites() int {
 	}
 	n := 0
 	for _, x := range ss {
-		if x.Kind == "blocking" {
+		if x.Kind == kind {
 			n++
 		}
 	}
